@@ -30,7 +30,48 @@ func mapCase(s Str, lo, hi byte, delta int64) Str {
 	return Str{out}
 }
 
+// strconv integer formatting: exact rendering (forks on the digit count only) instead of interpreting
+// strconv's table-driven loops over a symbolic value
+func (in *Interp) strconvFormat(v *Term, base int64) Str {
+	if base != 10 && base != 16 {
+		in.fail("strconv formatting in base %d", base)
+	}
+	saved := in.fmtExact
+	in.fmtExact = true
+	defer func() { in.fmtExact = saved }()
+	return in.formatInt(v, int(base), 0, false)
+}
+
 func initStrIntr() {
+	intrinsics["strconv.FormatUint"] = func(in *Interp, fn *ssa.Function, a []Value) Value {
+		return in.strconvFormat(bvToIntU(a[0].(*Term)), concInt(a[1]))
+	}
+	intrinsics["strconv.FormatInt"] = func(in *Interp, fn *ssa.Function, a []Value) Value {
+		return in.strconvFormat(bvToIntS(a[0].(*Term)), concInt(a[1]))
+	}
+	intrinsics["strconv.Itoa"] = func(in *Interp, fn *ssa.Function, a []Value) Value {
+		return in.strconvFormat(bvToIntS(a[0].(*Term)), 10)
+	}
+	appendNum := func(signed bool) intrinsic {
+		return func(in *Interp, fn *ssa.Function, a []Value) Value {
+			dst := a[0].(Slice)
+			var v *Term
+			if signed {
+				v = bvToIntS(a[1].(*Term))
+			} else {
+				v = bvToIntU(a[1].(*Term))
+			}
+			s := in.strconvFormat(v, concInt(a[2]))
+			out := make([]Value, 0, len(dst.A)+len(s.B))
+			out = append(out, dst.A...)
+			for _, b := range s.B {
+				out = append(out, b)
+			}
+			return Slice{A: out}
+		}
+	}
+	intrinsics["strconv.AppendUint"] = appendNum(false)
+	intrinsics["strconv.AppendInt"] = appendNum(true)
 	intrinsics["strconv.FormatFloat"] = func(in *Interp, fn *ssa.Function, a []Value) Value {
 		f := a[0].(Float)
 		if f.T != nil {
